@@ -1,4 +1,5 @@
 import Alpen.Model.Task
+import Alpen.Model.Retry
 import Alpen.Lemmas.Task
 /-!
 # C10 — database faults are contained (worker / task part)
@@ -87,5 +88,30 @@ theorem C10_other_error_aborts (beh : Nat → CleanBeh) (t : TaskSt) (s : Seg) (
 example : (workerHandle (fun i => if i = 1 then .dbError else .ok)
     ⟨3, false, true, [⟨[(1, true), (2, false)], .dbError⟩], []⟩).2
     = [.cleanupStarted 1, .cleanupStarted 2, .taskDone 3, .requeued 3 false, .workerExit 1] := by decide
+
+end Alpen
+
+namespace Alpen
+
+/-- **C10.5 retry once** a statement is attempted at most twice; it is retried exactly when the
+    first attempt failed, the database auto-reconnects and no transaction is open; the retry
+    runs on a fresh connection (the broken one is closed first); the result reported is that
+    of the last attempt. -/
+theorem C10_retry_once (autoconnect inTxn isClosed : Bool) (outcomes : Nat → Bool) :
+    let r := retryExecute autoconnect inTxn isClosed outcomes
+    attempts r.1 ≤ 2 ∧
+    (attempts r.1 = 2 ↔ (outcomes 0 = false ∧ autoconnect = true ∧ inTxn = false)) ∧
+    (attempts r.1 = 2 → isClosed = false → r.1 = [.attempt false, .close, .attempt (outcomes 1)]) ∧
+    (r.2 = true ↔ (outcomes 0 = true ∨ (autoconnect = true ∧ inTxn = false ∧ outcomes 1 = true))) := by
+  cases h0 : outcomes 0 <;> cases autoconnect <;> cases inTxn <;> cases isClosed <;>
+    cases h1 : outcomes 1 <;> simp [retryExecute, attempts, h0, h1]
+
+/-- **C10.2** `check` replaces every dead worker and keeps the pool size; after it every slot
+    holds a live worker. -/
+theorem C10_pool_respawns (alive : List Bool) :
+    (poolCheck false alive).length = alive.length ∧ ∀ b ∈ poolCheck false alive, b = true := by
+  simp [poolCheck]
+
+example : retryExecute true false false (fun i => i == 1) = ([.attempt false, .close, .attempt true], true) := by decide
 
 end Alpen
